@@ -36,6 +36,7 @@ def REQUIRED(tier):
         req[("schema-ok:" if not s.endswith("-neg") else "schema-refused-ok:") + s] = 10
     req["schema:reached-in-place"] = 300
     req["schema:reached-by-folding"] = 100
+    req["schema:target-has-a-twin-with-the-same-ids"] = 100
     req["schema:asked-under-numpy-invalid-raise"] = 300
     return req
 
@@ -216,6 +217,14 @@ def run_instance(rec, inst, rng, ctx_sample):
         if node is None:
             rec.skip("target not found")
             continue
+        if isinstance(inst.params, dict) and inst.params.get("twin"):
+            shape = S.vshadow(node)
+            others = [m for m in S.nodes_preorder(root) if m is not node and S.vshadow(m) == shape]
+            for other in others:
+                for a_, b_ in zip(S.nodes_preorder(node), S.nodes_preorder(other)):
+                    b_.id = a_.id
+            if others:
+                rec.arm("schema:target-has-a-twin-with-the-same-ids")
         rec.ev()
         hostile = FORCE["hostile"] or rng.random() < 0.25
         w0 = {"schema": inst.schema, "rule": inst.rule, "text": inst.text, "context": ctx, "full": full, "kind": inst.kind, "params": inst.params,
@@ -578,6 +587,11 @@ def instances(rng):
 
     text = f"{mk(L)} = {R}" if side == "L" else f"{L} = {mk(R)}"
     yield Inst("BM-add", "BM", text, "bm_add", {"t": t, "side": side, "pos": pos}, contexts=EQ_CONTEXTS)
+    # the same piece cloned onto BOTH sides ("add t to both sides"): the two copies carry the same
+    # node ids, and the move is requested for the one on `side`
+    twin = rng.choice(["{o} + {t}", "{t} + {o}"])
+    text = f"{mk(L)} = {twin.format(o=R, t=t)}" if side == "L" else f"{twin.format(o=L, t=t)} = {mk(R)}"
+    yield Inst("BM-add", "BM", text, "bm_add", {"t": t, "side": side, "pos": pos, "twin": True}, contexts=EQ_CONTEXTS)
     c_ = rng.choice(["2", "3", "12", "0.5", "-4", "7", "2.5"])
     body = rng.choice([f"{c_}{rng.choice(VARS)}", f"{c_}{rng.choice(VARS)}^2", f"{c_} * {rng.choice(VARS)}"])
     rside = rng.choice([rng.choice(POSC), term(rng), f"{term(rng)} + {rng.choice(POSC)}"])
